@@ -15,7 +15,9 @@
 //                         finish_session), and `run`'s call of apply_disconnect; `run`'s last block
 //                         (clear_session_state / enable_active_connect / peer removal) is NOT executed.
 //                         (2) `admin-shutdown` sends CloseReason::AdminShutdown on that ONE role's close
-//                         channel (the real `force_down` does it for both roles at once).
+//                         channel (the real `force_down` does it for both roles at once); `reset` goes through
+//                         the real GrpcService::reset_peer, `bfd-down` calls the real force_down as the main
+//                         loop's BFD arm does.
 //                         (3) timer expiry is provoked by replacing the timer collection with `sleep(0)`
 //                         (harness write to the field); what happens then is the real run_select.
 //   scheduling:           the rig is single-threaded: after every action all live sessions are pumped
@@ -370,6 +372,34 @@ impl Rig {
         }
     }
 
+    /// Operator's hard ResetPeer through the real gRPC handler (`force_down` with
+    /// CloseReason::SendMessage(Cease/peer-deconfigured) for every session of the peer).
+    pub(crate) async fn reset_peer(&mut self) -> bool {
+        let (active_conn_tx, _rx) = mpsc::unbounded_channel();
+        let svc = grpc::GrpcService::new(
+            Arc::new(tokio::sync::Notify::new()),
+            active_conn_tx,
+            self.global.clone(),
+            self.tables.clone(),
+        );
+        svc.reset_peer(tonic::Request::new(api::ResetPeerRequest {
+            address: self.remote_addr.to_string(),
+            soft: false,
+            ..Default::default()
+        }))
+        .await
+        .is_ok()
+    }
+
+    /// BFD session down, as the main loop handles `BfdEvent::SessionDown` (transcribed arm, real
+    /// `force_down` with CloseReason::Silent).
+    pub(crate) async fn bfd_down(&mut self) {
+        let mut g = self.global.write().await;
+        if let Some(peer) = g.peers.get_mut(&self.remote_addr) {
+            peer.context.lock().unwrap().force_down(CloseReason::Silent, false);
+        }
+    }
+
     /// Make a timer of the session due now (harness write); the reaction is the real run_select.
     pub(crate) fn expire(&mut self, role: crate::fsm::Role, hold: bool) -> bool {
         let Some(c) = self.conns[idx(role)].as_mut() else {
@@ -612,7 +642,13 @@ pub(crate) async fn run_wire(t: &Term, with_timers: bool) -> String {
         let role = parse_role(r).unwrap();
         let live = rig.conns[idx(role)].is_some();
         let head = a.head().or(a.as_atom()).unwrap_or("");
-        let kind: &str = if head == "connect" {
+        let kind: &str = if head == "reset" {
+            rig.reset_peer().await;
+            "step"
+        } else if head == "bfd-down" {
+            rig.bfd_down().await;
+            "step"
+        } else if head == "connect" {
             if rig.connect(role).await { "step" } else { "refused" }
         } else if !live {
             "no-conn"
@@ -729,6 +765,8 @@ fn action_ok(a: &Term) -> bool {
                 | "hold-timer"
                 | "hold-timer+keepalive"
                 | "ka-timer"
+                | "reset"
+                | "bfd-down"
         );
     }
     match a.head() {
